@@ -150,17 +150,27 @@ Proof. exact plain_example. Qed.
    stand - any shape and depth, any texts, any number of attributes per element, each in any namespace (or none) and of any
    value type (string through the pool, integer, hex, boolean, reference, dimension ...: the formatted value of C27, cleaned),
    repeated attribute keys overwriting, any namespace declarations around the root - written as header, string pool
-   (either encoding) and chunks, without a resource map, is parsed to exactly that tree *)
+   (either encoding) and chunks is parsed to exactly that tree; with a resource map in front (as aapt writes manifests) the
+   name of an attribute the map covers is the system attribute name of its resource id (when the table knows it) *)
+Theorem C26_manifests_round_trip : forall (utf8_flag : bool) ss padding sysattr ids decls t,
+  Forall (fits utf8_flag) ss -> Z.of_nat (length ss) < NONE -> wf_res ids -> Forall wf_decl decls ->
+  wf_atree ss sysattr ids t -> atail t = NONE ->
+  28 + 4 * Z.of_nat (length ss) + len (concat (map (if utf8_flag then entry8 else entry16) ss)) < 4294967296 ->
+  len (doc_bytes utf8_flag ss padding (IResMap ids :: adoc_items decls t)) < 4294967296 ->
+  parse_axml sysattr (doc_bytes utf8_flag ss padding (IResMap ids :: adoc_items decls t)) = Ok (Some (atree_of ss sysattr ids decls t)).
+Proof. exact manifest_document_round_trip. Qed.
+Print Assumptions C26_manifests_round_trip.
 Theorem C26_documents_with_attributes_round_trip : forall (utf8_flag : bool) ss padding sysattr decls t,
   Forall (fits utf8_flag) ss -> Z.of_nat (length ss) < NONE -> Forall wf_decl decls ->
-  wf_atree ss t -> atail t = NONE ->
+  wf_atree ss sysattr [] t -> atail t = NONE ->
   28 + 4 * Z.of_nat (length ss) + len (concat (map (if utf8_flag then entry8 else entry16) ss)) < 4294967296 ->
   len (doc_bytes utf8_flag ss padding (adoc_items decls t)) < 4294967296 ->
-  parse_axml sysattr (doc_bytes utf8_flag ss padding (adoc_items decls t)) = Ok (Some (atree_of ss decls t)).
+  parse_axml sysattr (doc_bytes utf8_flag ss padding (adoc_items decls t)) = Ok (Some (atree_of ss sysattr [] decls t)).
 Proof. exact attribute_document_round_trip. Qed.
 Print Assumptions C26_documents_with_attributes_round_trip.
-(* <manifest xmlns:android="http://a/res" package="com.x" android:versionCode="7"><application android:name="com.x"/></manifest> *)
+(* <manifest xmlns:android="http://a/res" package="com.x" android:versionCode="7"><application android:name="com.x"/></manifest>
+   with a resource map; the name string of versionCode is empty in the pool, the name comes from the system attribute table *)
 Example C26_attributes_nonvacuous :
-  wf_atree ax_ss ax_tree /\ atree_of ax_ss [(0, 1)] ax_tree = ax_xml /\
-  parse_axml [] (doc_bytes false ax_ss [] (adoc_items [(0, 1)] ax_tree)) = Ok (Some ax_xml).
-Proof. exact attribute_example. Qed.
+  wf_atree ax_ss ax_sys ax_ids ax_tree /\ atree_of ax_ss ax_sys ax_ids [(2, 3)] ax_tree = ax_xml /\
+  parse_axml ax_sys (doc_bytes true ax_ss [] (IResMap ax_ids :: adoc_items [(2, 3)] ax_tree)) = Ok (Some ax_xml).
+Proof. exact manifest_example. Qed.
